@@ -387,7 +387,21 @@ func (p *pipeline) lean() string {
 					if k < len(n.lab) {
 						l = n.lab[k]
 					}
-					b.WriteString(leanStr(l))
+					// "text:i;text:j" → [(text, i), (text, j)]
+					b.WriteString("[")
+					first := true
+					for _, d := range strings.Split(l, ";") {
+						i := strings.LastIndex(d, ":")
+						if i < 0 {
+							continue
+						}
+						if !first {
+							b.WriteString(", ")
+						}
+						first = false
+						fmt.Fprintf(&b, "(%s, %s)", leanStr(d[:i]), d[i+1:])
+					}
+					b.WriteString("]")
 				}
 			}
 			b.WriteString("]")
